@@ -243,6 +243,15 @@ impl ParseState {
                     return Err(CustomError::extend_wrong_type(path, i, v.type_name()));
                 }
                 Item::ArrayOfTables(ref mut array) => {
+                    // Arrays of tables are only extended with `[[header]]`s, never by dotted keys.
+                    // A dotted key ending at the array's element is reported by `on_keyval`.
+                    if dotted && i + 1 != path.len() {
+                        return Err(CustomError::extend_wrong_type(
+                            path,
+                            i,
+                            "array of tables",
+                        ));
+                    }
                     debug_assert!(!array.is_empty());
 
                     let index = array.len() - 1;
